@@ -1124,7 +1124,7 @@ def evaluate(ck, net, info, items, alg, g, txt, wit):
                if (q.xy != "none" and not q.give_xy) or (q.z != "none" and not q.give_z)}
     n_judged = 0
     flagged_raw = False          # would the documented rule (or its left-arm variant) find any gross term?
-    any_hom = False              # would the rule applied to the homogenised terms find any?
+    any_hom = [False, False]     # would the rule applied to the homogenised terms find any? (both arms / left arm)
     for it in items:
         if it.n in pre:
             continue
@@ -1147,8 +1147,9 @@ def evaluate(ck, net, info, items, alg, g, txt, wit):
             m_hom_left = abs(y) / 1e4 * GON * Lleft * 1000.0 if y is not None else None
         else:
             m_left = m_hom = m_hom_left = m
-        flagged_raw = flagged_raw or m_left > tol
-        any_hom = any_hom or (m_hom_left is not None and m_hom_left > tol)
+        flagged_raw = flagged_raw or m_left > tol or m > tol
+        any_hom[0] = any_hom[0] or (m_hom is not None and m_hom > tol)
+        any_hom[1] = any_hom[1] or (m_hom_left is not None and m_hom_left > tol)
         e = next((e for e in S.abs if e.get("_item") == it.n), None)
         if e is not None:
             # value of the absolute term the hook saw vs the independent one
@@ -1193,10 +1194,10 @@ def evaluate(ck, net, info, items, alg, g, txt, wit):
                 def dec(v):
                     return v is not None and abs(v - tol) > 1e-9 * tol and (v > tol) == excluded
                 hom = "correlated-cluster" if it.ci in corr else "homogenized-rhs"
-                if it.kind == "angle" and dec(m_left):
-                    fam = "left-arm:"
-                elif dec(m_hom):
+                if dec(m_hom):
                     fam = hom + ":"
+                elif it.kind == "angle" and dec(m_left):
+                    fam = "left-arm:"
                 elif it.kind == "angle" and dec(m_hom_left):
                     fam = hom + "+left-arm:"
             ck.violation("abs-term-rule:%s%s:%s" % (fam, it.kind, side),
@@ -1318,7 +1319,7 @@ def evaluate(ck, net, info, items, alg, g, txt, wit):
                      "'Outlying absolute terms' lists row %s which was not excluded" % r, wit)
     # the section is announced on the flag huge_abs_terms() (raw terms) while the rows and the removal come from
     # a second evaluation: known defect when that one runs on the homogenised terms
-    why = ":homogenized-rhs" if (flagged_raw and not any_hom and not S.abs) else ""
+    why = ":homogenized-rhs" if (flagged_raw and not all(any_hom) and not S.abs) else ""
     if bool(S.abs) != T["note"]:
         ck.violation(("phantom:outlying-terms-note" + why) if T["note"] else "invisible:obs:abs-term-note",
                      "'Observations with outlying absolute terms removed' %s, %d observations removed" % (
